@@ -49,5 +49,122 @@ theorem vor_eq (a b : Const) : vor a b = Const.or a b := by
   unfold vor Expr.mkBin Const.or
   by_cases h : a.bits = b.bits <;> simp [Expr.bits, h, Expr.eval, BinOp.apply, Const.or]
 
+
+/-- what `store` accepts and the `usize` type guarantees -/
+structure Good (v : Const) : Prop where
+  dvd : v.bits % 8 = 0
+  pos : 0 < v.bits
+  wf : v.val < 2 ^ v.bits
+  small : v.bits < 2 ^ 63
+
+theorem new_shift_val {s b : Nat} (h1 : s < b) (h2 : b < 2 ^ 64) :
+    (Const.new (s % 2 ^ 64) b).val = s := by
+  have : s < 2 ^ b := Nat.lt_trans h1 Nat.lt_two_pow_self
+  simp only [Const.new, Const.trim]
+  have h3 : s % 2 ^ 64 = s := Nat.mod_eq_of_lt (by omega)
+  rw [h3, Nat.mod_eq_of_lt this]
+
+theorem vshr_ok {v : Const} {s : Nat} (h1 : s < v.bits) (h2 : v.bits < 2 ^ 64) :
+    vshr v s = .ok ⟨v.bits, (v.val / 2 ^ s) % 2 ^ v.bits⟩ := by
+  rw [vshr_eq]
+  have hv := new_shift_val h1 h2
+  have hs : s < 2 ^ 64 := by omega
+  simp only [Const.shr]
+  rw [hv]
+  simp [Const.new, Const.toUsize, hs, Const.trim, Nat.shiftRight_eq_div_pow]
+
+theorem vshl_ok {v : Const} {s : Nat} (h1 : s < v.bits) (h2 : v.bits < 2 ^ 64) :
+    vshl v s = .ok ⟨v.bits, (v.val * 2 ^ s) % 2 ^ v.bits⟩ := by
+  rw [vshl_eq]
+  have hv := new_shift_val h1 h2
+  have hs : s < 2 ^ 64 := by omega
+  have h3 : ¬ s ≥ v.bits := by omega
+  simp only [Const.shl]
+  rw [hv]
+  simp [Const.new, Const.toUsize, hs, Const.trim, Nat.shiftLeft_eq, h3]
+
+
+
+theorem p256 (i : Nat) : 256 ^ i = 2 ^ (8 * i) := by
+  rw [Nat.pow_mul]
+
+theorem mod_div_mod (y j t : Nat) (h : t < j) :
+    y % 2 ^ (8 * j) / 2 ^ (8 * t) % 256 = y / 2 ^ (8 * t) % 256 := by
+  have e1 : 2 ^ (8 * j) = 2 ^ (8 * t) * 2 ^ (8 * (j - t)) := by
+    rw [← Nat.pow_add]; congr 1; omega
+  have e2 : 2 ^ (8 * (j - t)) = 256 * 2 ^ (8 * (j - t) - 8) := by
+    have : 8 * (j - t) = 8 + (8 * (j - t) - 8) := by omega
+    conv => lhs; rw [this, Nat.pow_add]
+  rw [e1, Nat.mod_mul_right_div_self, e2]
+  exact Nat.mod_mul_right_mod _ _ _
+
+theorem div_pow_div (x a b : Nat) : x / 2 ^ a / 2 ^ b = x / 2 ^ (a + b) := by
+  rw [Nat.div_div_eq_div_mul, ← Nat.pow_add]
+
+/-- the constant made of bytes `d … d+j-1` (memory order) of `v` -/
+def sub (e : Endian) (v : Const) (d j : Nat) : Const :=
+  match e with
+  | .little => ⟨8 * j, v.val / 2 ^ (8 * d) % 2 ^ (8 * j)⟩
+  | .big => ⟨8 * j, v.val / 2 ^ (8 * (v.bits / 8 - d - j)) % 2 ^ (8 * j)⟩
+
+@[simp] theorem sub_bits (e : Endian) (v : Const) (d j : Nat) : (sub e v d j).bits = 8 * j := by
+  cases e <;> rfl
+
+theorem sub_wf (e : Endian) (v : Const) (d j : Nat) : (sub e v d j).val < 2 ^ (sub e v d j).bits := by
+  cases e <;> exact Nat.mod_lt _ (Nat.two_pow_pos _)
+
+theorem byteAt_sub (e : Endian) (v : Const) (d j i : Nat) (hi : i < j) (hd : d + j ≤ v.bits / 8) :
+    byteAt e (sub e v d j) i = byteAt e v (d + i) := by
+  cases e with
+  | little =>
+    simp only [byteAt, sub, p256]
+    rw [mod_div_mod _ _ _ hi, div_pow_div]
+    congr 4; omega
+  | big =>
+    simp only [byteAt, sub, p256]
+    have : 8 * j / 8 - 1 - i < j := by omega
+    rw [mod_div_mod _ _ _ this, div_pow_div]
+    congr 4; omega
+
+
+/-! ### bytes of a value -/
+theorem valLE_bytes (x j : Nat) :
+    valLE ((List.range j).map (fun i => UInt8.ofNat (x / 256 ^ i % 256))) = x % 256 ^ j := by
+  induction j generalizing x with
+  | zero => simp [valLE, Nat.mod_one]
+  | succ j ih =>
+    rw [List.range_succ_eq_map]
+    simp only [List.map_cons, List.map_map, valLE]
+    have : ((fun i => UInt8.ofNat (x / 256 ^ i % 256)) ∘ Nat.succ) = (fun i => UInt8.ofNat (x / 256 / 256 ^ i % 256)) := by
+      funext i; simp [Nat.pow_succ, Nat.div_div_eq_div_mul, Nat.mul_comm]
+    rw [this, ih]
+    simp [Nat.pow_succ, Nat.mod_mul, Nat.mul_comm]
+
+@[simp] theorem bytesOf_length (e : Endian) (v : Const) : (bytesOf e v).length = v.bits / 8 := by
+  simp [bytesOf]
+
+theorem bytesOf_getElem? (e : Endian) (v : Const) (i : Nat) (h : i < v.bits / 8) :
+    (bytesOf e v)[i]? = some (byteAt e v i) := by
+  simp [bytesOf, h]
+
+theorem bytesOf_big (v : Const) : bytesOf .big v = (bytesOf .little v).reverse := by
+  apply List.ext_getElem
+  · simp
+  · intro i h1 h2
+    simp only [bytesOf_length] at h1
+    simp only [List.getElem_reverse, bytesOf, List.getElem_map, List.getElem_range, byteAt, List.length_map, List.length_range]
+
+theorem fromBytes_bytesOf (e : Endian) (c : Const) (h8 : c.bits % 8 = 0) (wf : c.val < 2 ^ c.bits) :
+    fromBytes e (bytesOf e c) = c := by
+  have hb : 8 * (c.bits / 8) = c.bits := by omega
+  have hv : valLE (bytesOf .little c) = c.val := by
+    show valLE ((List.range (c.bits / 8)).map (fun i => UInt8.ofNat (c.val / 256 ^ i % 256))) = c.val
+    rw [valLE_bytes, p256, hb]; exact Nat.mod_eq_of_lt wf
+  cases e with
+  | little =>
+    simp only [fromBytes, bytesOf_length, hb, hv]
+  | big =>
+    simp only [fromBytes, bytesOf_length, hb, bytesOf_big, List.reverse_reverse, List.length_reverse, hv]
+
 end Paged
 end Falcon
